@@ -155,7 +155,31 @@ CLAIMED["C20"] = dict(
        "reference; standard DLF (pts_per_dec=0) not exercised.",
   ref="DESIGN.md section 5 (C20)", engine="tlc-fourier")
 
+CLAIMED["C04"] = dict(
+  technique="TLA+ exact-rational reference of restriction weights, linear "
+            "interpolation, coarse-grid and child-sum rules (Transfer.tla) "
+            "checked by TLC + TLC validation of the matrices of the real "
+            "restriction/prolongation extracted by basis fields "
+            "(TransferCode.tla)",
+  text="TLC proves for every 1-D width vector (widths {1,2,3,5}; 2,4,6 "
+       "cells) that the restriction weights are the transpose of linear "
+       "interpolation, non-negative and that interpolation weights sum to "
+       "one.  For 44 (thorough 400) grids with integer widths and all seven "
+       "coarsening patterns the complete matrices of the real "
+       "solver.restriction and solver.prolongation (real and complex) are "
+       "extracted and TLC checks every entry against the exact reference, "
+       "R = P^T on interior edges, row sums, non-negativity, untouched "
+       "boundary rows, the every-second-node rule and that each coarse "
+       "parameter is the sum of its children (all four parameters, anisotropy "
+       "aliasing).",
+  note="Trusted: TLC; conversion float -> small rational at 8e-16; widths "
+       "restricted to {1,2,3} and at most 8 cells per direction.",
+  ref="DESIGN.md section 5 (C04)", engine="tlc-transfer")
+
 ENGINES = [
+ dict(name="tlc-transfer", path="spec/Transfer.tla", serves_properties=["C04"],
+      kind_free_text="TLA+ exact-arithmetic reference + TLC validation of "
+                     "extracted code matrices"),
  dict(name="tlc-fourier", path="spec/Fourier.tla", serves_properties=["C20"],
       kind_free_text="TLA+ spec + TLC exhaustive + TLC trace validation"),
  dict(name="tlc-surveynoise", path="spec/SurveyNoise.tla",
